@@ -213,9 +213,9 @@ impl PriceLevel {
 
                 remaining = new_remaining;
 
-                // update statistics
+                // update statistics: booked at the level's price, the price the transaction carries
                 self.stats
-                    .record_execution(consumed, order_arc.price(), order_arc.timestamp());
+                    .record_execution(consumed, self.price, order_arc.timestamp());
 
                 if let Some(updated) = updated_order {
                     if hidden_reduced > 0 {
